@@ -2139,6 +2139,7 @@ The what argument tells us what sort of state is expected (allowed values are de
         @param tag           the tag to assign as tag name or Tag instance
         @param productName   the name of the product to tag
         @param versionName   the version of the product
+        @return              the root of the stack that the tagged product lives in
         """
         # convert tag name to a Tag instance; may raise TagNotRecognized
         tag = self.tags.getTag(tag)
@@ -2188,6 +2189,8 @@ The what argument tells us what sort of state is expected (allowed values are de
                     print("Warning: " + str(e), file=utils.stdwarn)
                     print("Correcting...", file=utils.stdwarn)
                 self.versions[root].refreshFromDatabase()
+
+        return root
 
     def unassignTag(self, tag, productName, versionName=None, eupsPathDir=None, eupsPathDirForRead=None):
         """
@@ -2712,23 +2715,24 @@ The what argument tells us what sort of state is expected (allowed values are de
             if not self.noaction:
                 eupsDirs = [eupsPathDirForRead, eupsPathDir]
                 #
-                # Delete all old occurrences of this tag.  Look in each stack separately: findProducts()
-                # merges products with the same name, version and flavor that live in different stacks,
-                # which left the tag assigned in all but the first such stack
-                #
-                for root in self.path:
-                    if self.findTaggedProduct(productName, tag[0], root) is not None:
-                        self.unassignTag(tag[0], productName, None, root, eupsPathDir)
-                #
-                # And set it in the Proper Place
+                # Set it in the Proper Place.  Assigning the tag replaces the version it named in that stack
+                # in one rewrite of the chain file, so the tag is at no time unassigned there
                 #
                 for eupsDir in eupsDirs:
                     try:
-                        self.assignTag(tag[0], productName, versionName, eupsPathDir, eupsDir)
+                        taggedRoot = self.assignTag(tag[0], productName, versionName, eupsPathDir, eupsDir)
                         break
                     except ProductNotFound:
                         if eupsDir == eupsDirs[-1]: # no more to try
                             raise
+                #
+                # Delete all old occurrences of this tag in the other stacks.  Look in each stack separately:
+                # findProducts() merges products with the same name, version and flavor that live in different
+                # stacks, which left the tag assigned in all but the first such stack
+                #
+                for root in self.path:
+                    if root != taggedRoot and self.findTaggedProduct(productName, tag[0], root) is not None:
+                        self.unassignTag(tag[0], productName, None, root, eupsPathDir)
         #
         # Save extra files in the extra directory
         #
